@@ -111,6 +111,9 @@ pub struct Inner {
     pub scripted_pending: bool,
     /// the async transport announces gathering writes (is_write_vectored) and takes them
     pub vectored: bool,
+    /// poll_flush stays Pending for this many polls after every accepted write (async only)
+    pub slow_flush: u8,
+    pub flush_owed: u8,
 }
 
 impl Inner {
@@ -202,6 +205,7 @@ impl Inner {
     }
 
     fn accept(&mut self, buf: &[u8], n: usize) {
+        self.flush_owed = self.slow_flush;
         self.written.extend_from_slice(&buf[..n]);
         for _ in 0..n {
             self.stamps.push(self.cur_call);
@@ -288,6 +292,12 @@ impl AsyncWrite for World {
         }
     }
     fn poll_flush(self: Pin<&mut Self>, _cx: &mut Context<'_>) -> Poll<io::Result<()>> {
+        // a transport that buffers (websocket, TLS): the flush after a write takes a few polls
+        let mut w = self.0.lock().unwrap();
+        if w.flush_owed > 0 {
+            w.flush_owed -= 1;
+            return Poll::Pending;
+        }
         Poll::Ready(Ok(()))
     }
     fn is_write_vectored(&self) -> bool {
@@ -376,6 +386,7 @@ pub fn run(inst: &Instance, hist: &[Act]) -> RunResult {
         inbound: inst.inbound(),
         script_writes: inst.script_writes,
         vectored: inst.vectored,
+        slow_flush: inst.slow_flush,
         ..Default::default()
     }));
     let r = match inst.imp {
